@@ -6,7 +6,8 @@
 From Verif Require Import Base.Lex Pipelined.Model Pipelined.ProofsBuf Pipelined.ProofsShape Pipelined.ProofsRead
   Pipelined.ProofsBatch Pipelined.ProofsOnce Pipelined.ProofsErr Pipelined.ProofsCommit Pipelined.ProofsBounds Pipelined.ProofsRange
   Pipelined.ProofsDyn Pipelined.ProofsPrimary Pipelined.ProofsKeepAlive
-  Pipelined.ProofsTop.
+  Pipelined.ProofsExec Pipelined.ProofsTop.
+From Coq Require Import Permutation.
 
 (* Get and BatchGet return the latest value the transaction wrote (rmap (rrun ops): one plain map with staging
    snapshots), wherever it lives — mutable buffer, flushing buffer, batch-get cache, store tier; a delete is returned
@@ -154,6 +155,24 @@ Theorem C16_generation_without_primary_fails : forall s0 o g fb,
 Proof. exact C16_generation_without_primary_fails_proof. Qed.
 Print Assumptions C16_generation_without_primary_fails.
 
+(* One flush = several batches (batchExecutor.process): each batch is applied or refused by the store with a key error of some
+   class (0 = AssertionFailed, held back behind every other error). For ANY batch outcomes and ANY arrival order: process()
+   returns nil iff every batch was applied; the error it returns is the error of one of the refused batches, an assertion failure
+   only if nothing else was refused; whether the flush fails is invariant under permutations of the arrivals; and a flush with a
+   refused batch — its siblings applied or not — fails: the failure is latched and no later commit attempt succeeds. *)
+Theorem C16_batch_refusal_fails_flush : forall P ops arrivals,
+  let s := run P ops in
+  (process_err arrivals = None <-> forall r, In r arrivals -> r = None) /\
+  (forall c, process_err arrivals = Some c ->
+     In (Some c) arrivals /\ (c = 0 -> forall c', In (Some c') arrivals -> c' = 0)) /\
+  (forall b, Permutation arrivals b -> (process_err arrivals = None <-> process_err b = None)) /\
+  (forall r, inflight s = true -> In r arrivals -> refused r = true ->
+     let s' := complete_batches s arrivals in
+     closed s' = true /\ pending s' = Some false /\
+     forall ops' wo1 wo2, snd (commit_attempt P (run_from P s' ops') wo1 wo2) = false).
+Proof. exact C16_batch_refusal_fails_flush_proof. Qed.
+Print Assumptions C16_batch_refusal_fails_flush.
+
 (* Regression witnesses for the formula before a4a602e ([pipelinedStart, pipelinedEnd) with the largest key exclusive). *)
 
 Theorem C16_resolve_covers_prefix_refuted :
@@ -248,4 +267,12 @@ Proof. vm_compute. repeat split. Qed.
 Example generation_without_primary_nonvacuous :
   let s := run P0 [OInsert k1 v1; ODel k1; OFlush true 0 true; OComplete true] in
   closed s = true /\ primary s = [] /\ store s = [] /\ snd (commit_attempt P0 (run_from P0 s [OSet k5 v1]) true true) = false.
+Proof. vm_compute. repeat split. Qed.
+
+Example batch_refusal_nonvacuous :
+  process_err [None; Some 0; None] = Some 0 /\ process_err [Some 0; None; Some 3] = Some 3 /\ process_err [Some 3; Some 0] = Some 3 /\
+  process_err [None; None] = None /\
+  let s := run P0 [OSet k1 v1; OSet k5 v1; OFlush true 0 true] in
+  closed (complete_batches s [None; Some 0]) = true /\ store (complete_batches s [None; Some 0]) = [] /\
+  snd (commit_attempt P0 (complete_batches s [None; Some 0]) true true) = false.
 Proof. vm_compute. repeat split. Qed.
